@@ -115,3 +115,18 @@ macro_rules! wire_harness {
         fn $name() $body
     };
 }
+
+/// tree-hash harness: allocator stubs + SHA recorder with the precomputed-table-aware digest
+#[macro_export]
+macro_rules! th_harness {
+    ($name:ident, $unwind:expr, $body:block) => {
+        #[kani::proof]
+        #[kani::unwind($unwind)]
+        #[kani::stub(std::hash::RandomState::new, $crate::stubs::fixed_keys)]
+        #[kani::stub(std::vec::Vec::reserve, $crate::stubs::reserve_stub)]
+        #[kani::stub(chia_sha2::Sha256::new, $crate::stubs::sha_new)]
+        #[kani::stub(chia_sha2::Sha256::update, $crate::stubs::sha_update)]
+        #[kani::stub(chia_sha2::Sha256::finalize, $crate::stubs::sha_finalize_precomputed)]
+        fn $name() $body
+    };
+}
